@@ -63,6 +63,9 @@ def run_conversion(file_list, output_dir, report, source_format="XML"):
             outfile = os.path.join(output_dir, "%s_conv.xml" % out_name)
             try:
                 VerConf(file_path).write_to_file(outfile, source_format)
+                # Nothing is written for a file without any odML content.
+                if not os.path.isfile(outfile):
+                    report.write("[Warning] Skip file without odML content '%s'\n" % file_path)
             except Exception as exc:
                 # Ignore files we cannot parse or convert
                 report.write("[Error] version converting file '%s': '%s'\n" %
